@@ -2,7 +2,7 @@ import AtreeProofs.Codec.DM
 import AtreeProofs.Codec.CborLemmas
 /-
   `Safe` (no panic, allocation bound, post-condition) for every transcribed decoder function,
-  bottom-up, ending with `safe_decodeSlab`.  The bounds conditions of the slice expressions are
+  bottom-up, ending with `safe_decodeSlabFlat`.  The bounds conditions of the slice expressions are
   discharged from the length checks the Go code makes first and from the CBOR library's contract
   (`DecInv`, `decodeArrayHead_new_bound`).
 -/
@@ -385,9 +385,9 @@ theorem safe_newArrayMetaDataSlabFromData (id : SlabID) (data : Bytes) :
         · exact safe_failK
 
 /-- `DecodeSlab` never panics and allocates at most one slice element per input byte. -/
-theorem safe_decodeSlab (id : SlabID) (data : Bytes) :
-    Safe (decodeSlab id data) data.length (fun _ => True) := by
-  unfold decodeSlab
+theorem safe_decodeSlabFlat (id : SlabID) (data : Bytes) :
+    Safe (decodeSlabFlat id data) data.length (fun _ => True) := by
+  unfold decodeSlabFlat
   apply Safe.ite <;> intro hlen
   · exact safe_failK
   · refine Safe.bind0 (Safe.sliceTo (Nat.le_of_not_lt hlen)) ?_
